@@ -29,3 +29,15 @@ for p, b in F.bodies.items():
               "sig": [b.lty(i) for i in range(0, b.argc + 1)], "callers": sorted(callers.get(c, ()))}
 json.dump(out, open(os.path.join(V, "tables", "anchors.json"), "w"), indent=0, sort_keys=True)
 print(len(out), "anchors")
+
+# data anchors: field lists of crate-local structs and values of named constants, so that a rename of a private field or
+# constant is recognised (same position and type / same module, type and value)
+data = {"adts": {}, "consts": {}}
+for name, a in F.adts.items():
+    data["adts"][name] = [[[f["n"], f["ty"], f["vis"]] for f in v["fields"]] for v in a["variants"]]
+for name, c in F.consts.items():
+    val = c.get("raw") or c.get("int") or c.get("bytes")
+    if val is not None and "::{" not in name:
+        data["consts"][name] = {"ty": c.get("ty"), "val": val}
+json.dump(data, open(os.path.join(V, "tables", "data_anchors.json"), "w"), indent=0, sort_keys=True)
+print(len(data["adts"]), "adts", len(data["consts"]), "consts")
